@@ -105,8 +105,11 @@ def parser_tie(res, seed, n, dist):
         ip, mp, st = impl_print.get(name), model_print.get(name), src_tokens.get(name)
         if ip is None or st is None: continue
         if ok and impl.get(name) not in ('PANIC', 'UNSUP', None) and ip != st:
-            res.oracle_fail.append({'group': 'print', 'case': f"struct S<'a, T, U, const N: usize> {{ f: {t} }}",
-                                    'what': f"ORACLE-FAIL the supported field type `{t}` is printed back by Type::full() as different tokens: {ip[:200]}", 'signature': f"printer changes {t}"})
+            # not by itself a violation of C17 (a different spelling may still compile): reported as a broken tie of print_parse_roundtrip;
+            # whether a declaration stops compiling is decided by the compile-and-run part below
+            nd += 1
+            if nd == 1:
+                res.add_broken('correspondence', 'Type::full() no longer prints a supported field type back as the tokens written (print_parse_roundtrip no longer describes the code)', f"type `{t}`: printed {ip[:200]}")
         if drv and mp not in (None, '-') and impl.get(name) not in ('PANIC', None):
             npr += 1
             if mp != ip:
